@@ -61,6 +61,8 @@ def field_names_of(pl, base_local):
 def run_rules(ctx, res):
     N1, N2, N3, N4, N5 = "R-C17-coreq", "R-C17-firstflag", "R-C17-reenqueue", "R-C17-closure", "R-C17-transitions"
     N6 = "R-C17-firstseq"
+    N7 = "R-C17-firstterms"
+    res.rule(N7, "inside every FIRST-of-sequence loop, the FIRST terminals of a visited nonterminal are added to the accumulator before the test of that nonterminal's nullability, or else on every path after it (they are taken in whether or not it is nullable)")
     res.rule(N6, "every loop that computes FIRST of a symbol sequence starts with the epsilon flag true and clears it on every early exit (terminal reached / non-nullable nonterminal reached); only exhaustion leaves it set")
     res.rule(N1, "the function that decides merging is `subset(a, b) && subset(b, a)` (both argument orders) and the inclusion test compares exactly the rule index and the dot of items")
     res.rule(N2, "the FIRST fixpoint loop exits only when a whole pass reports no change; the pass ORs the flag of every rule without early exit; the accumulation step's flag compares every field of the accumulator it writes")
@@ -449,6 +451,49 @@ def run_rules(ctx, res):
             res.violate(N6, "first-of-sequence|%s" % f.name, f.where, "FIRST of a symbol sequence must start nullable and every early exit of the loop (a terminal, or a nonterminal that is not nullable) must clear the epsilon flag; %s%d early exit(s) leave it set — the sequence is then considered nullable and the item's own look-ahead is wrongly added" % ("the flag is not initialised to true; " if not true_init else "", len(missing)))
     res.floor("FIRST-of-sequence loops", len(seqs), 3)
 
+    # ---- N7: a nonterminal of the sequence contributes its FIRST terminals whether or not it is nullable
+    n7 = 0
+    for (f, h, body, exits) in seqs:
+        fx = Exprs(f)
+        dom = f.dominators()
+        for b in sorted(body):
+            t_ = f.blocks[b]["term"]
+            if t_["k"] != "switch":
+                continue
+            ce = canon(fx.operand(t_["discr"]))
+            m_ = re.match(r"^(?:Not )?\(?(.*)\.contains_epsilon\)?$", ce)
+            if not m_:
+                continue
+            X = m_.group(1)
+            # a symbol's FIRST set is the result of a look-up (a call); the accumulator itself is a local
+            if not re.search(r"\w\(", X):
+                continue
+            n7 += 1
+            adders = []
+            for c in f.calls():
+                if any((X + ".terminals") in canon(fx.operand(a)) for a in c.args if a["k"] in ("copy", "move")):
+                    adders.append(c)
+            ablocks = {c.bb for c in adders}
+            ok7 = any(c.bb in dom.get(b, ()) for c in adders)
+            if not ok7 and adders:
+                # not before the test: then on every path after it (each side adds them before going round or leaving)
+                ok7 = True
+                for s0 in f.succs(b):
+                    work, seen7 = [s0], set()
+                    while work and ok7:
+                        x = work.pop()
+                        if x in seen7 or x in ablocks or f.blocks[x]["cleanup"]:
+                            continue
+                        seen7.add(x)
+                        if x == h or f.blocks[x]["term"]["k"] == "return":
+                            ok7 = False
+                            break
+                        work.extend(f.succs(x))
+            res.inst(N7, "first-terminals|%s" % f.name, f.where, True, "nullable test on %s; terminals added before the test: %s" % (X[:80], ok7))
+            if not ok7:
+                res.violate(N7, "first-terminals|%s" % f.name, f.where, "FIRST of a symbol sequence must take in the FIRST terminals of every nonterminal it visits whether or not it is nullable; here `%s.terminals` is %s — a nullable nonterminal then contributes nothing and look-ahead sets come out too small" % (X[:100], "added only on one side of the nullability test" if adders else "never added"))
+    res.floor("nullability tests inside FIRST-of-sequence loops", n7, 3)
+
     # ---- N5
     tr = [f for f in stage if any((c.rpath or "").endswith("HashSet::<T, S, A>::insert") and "Transition" in str(c.callee.get("args")) for c in f.calls())]
     if len(tr) != 1:
@@ -482,5 +527,17 @@ def run_rules(ctx, res):
 def check(ctx):
     res = Result("C17", ctx["tier"], "other", ctx["seed"])
     run_rules(ctx, res)
+    # the statement is about the *emitted tables*: the stages between the automaton and the table text are held to
+    # their own necessary conditions too (rules of C01, C04, C11 on the same facts, reported under their own ids)
+    from . import c01
+    from ..report import Result as _R2
+    r01 = _R2("C01", ctx["tier"], "other")
+    c01.run_rules(ctx, r01)
+    res.rule("imported", "necessary conditions of the stages after the construction, decided by other checks' rules on the same facts: C01 (renumbering, goto filling, builder-to-table move, error default, index functions, emitted index spaces), C04 (single guarded writer, equality, exhaustive un-bypassable scan), C11 (look-ahead/action pairing per item, arguments forwarded unchanged)")
+    res.inst("imported", "C01|own rules", "", True, "%d instances, %d violations" % (len(r01.instances), len(r01.violations)))
+    for v in r01.violations:
+        res.violate(v.rule, v.key, v.where, v.msg, v.detail)
+    c01.import_violations(ctx, res, "c04", "C04", lambda r: r.startswith("R-C04-"), "writer/eq/scan")
+    c01.import_violations(ctx, res, "c11", "C11", lambda r: r in ("R-C11-la", "R-C11-forward", "R-C11-context"), "pairing/forwarding")
     res.assume("CLAUSE LEVEL ONLY: these are necessary conditions of the construction being LALR(1); they do not show that the emitted tables are exactly the LALR(1) tables for every grammar")
     return finish(res, "Named structural necessary conditions of the LALR(1) construction decided on MIR (def-use value reconstruction, control dependence, who-writes/who-compares): symmetric core equality on (rule, dot); FIRST fixpoint whose change flag covers every mutated component and whose loop exits only on a change-free pass over all rules; re-enqueue exactly on growth; closure skipping only contained items with FIRST(beta)+look-ahead-iff-nullable; a transition per symbol right of a dot. Exactness of the resulting tables is NOT decided.")
